@@ -1,6 +1,7 @@
 package props
 
 import (
+	"go/types"
 	"fmt"
 	"go/ast"
 	"go/token"
@@ -155,6 +156,9 @@ func runC18(c *Ctx) Info {
 	// 4. NO-HIDDEN-CONCURRENCY
 	nImp, nGo := c.scanHiddenMechanisms("NO-HIDDEN-CONCURRENCY", nil)
 	c.C.Bulk("NO-HIDDEN-CONCURRENCY", nImp, 0)
+	// 5. NO-SHARED-RESULT: a codec method must not hand out a pointer into state every caller shares
+	nShared := c.sharedResultRule(e)
+	c.C.Bulk("NO-SHARED-RESULT", nShared, 0)
 	// unresolved effects are fatal for soundness of "discharged": report as out-of-scope + note
 	unres := map[string]bool{}
 	for _, u := range a.Unresolved {
@@ -171,7 +175,7 @@ func runC18(c *Ctx) Info {
 	if len(unres) > 0 {
 		c.C.Fatalf("%d call(s) with unknown effect in library code (the effect table must be completed): %v", len(unres), keysOf(unres))
 	}
-	for _, r := range []string{"NO-GLOBAL-WRITE", "NO-RECEIVER-WRITE", "PARAMS-RO", "NO-HIDDEN-CONCURRENCY"} {
+	for _, r := range []string{"NO-GLOBAL-WRITE", "NO-RECEIVER-WRITE", "PARAMS-RO", "NO-HIDDEN-CONCURRENCY", "NO-SHARED-RESULT"} {
 		c.C.ExpectControl(r)
 	}
 	// evidence: init-only writers of globals
@@ -211,6 +215,72 @@ func runC18(c *Ctx) Info {
 			"external_call_counts": a.ExtCalls,
 		},
 	}
+}
+
+// sharedResultRule (NO-SHARED-RESULT): the pointer-like results of every method of a registered
+// codec type may not point at a library-defined mutable object that is reachable from the codec
+// instance or from a package-level variable: such an object is shared by every caller of every
+// goroutine, so one caller's SetParameter is another caller's changed default.
+func (c *Ctx) sharedResultRule(e *Eff) int {
+	n := 0
+	mutableLibType := func(t types.Type) bool {
+		if t == nil {
+			return false
+		}
+		if p, ok := t.(*types.Pointer); ok {
+			t = p.Elem()
+		}
+		switch u := t.(type) {
+		case *types.Named:
+			if u.Obj().Pkg() == nil || !(load.IsModule(u.Obj().Pkg().Path()) || load.IsControl(u.Obj().Pkg().Path())) {
+				return false
+			}
+			_, isStruct := u.Underlying().(*types.Struct)
+			_, isMap := u.Underlying().(*types.Map)
+			return isStruct || isMap
+		case *types.Map:
+			return true
+		}
+		return false
+	}
+	for _, m := range e.EP.Codec {
+		if m.Blocks == nil {
+			continue
+		}
+		for _, b := range m.Blocks {
+			if len(b.Instrs) == 0 {
+				continue
+			}
+			ret, ok := b.Instrs[len(b.Instrs)-1].(*ssa.Return)
+			if !ok {
+				continue
+			}
+			for ri, r := range ret.Results {
+				if _, isConst := r.(*ssa.Const); isConst {
+					continue
+				}
+				n++
+				for _, l := range e.A.PointsTo(r, pta.CtxRun) {
+					o := l.Obj
+					if o.Foreign || o.Blob || o.Kind == pta.FuncObj || !mutableLibType(o.Type) {
+						continue
+					}
+					shared := ""
+					if e.CodecReach[o] && !e.CodecObjs[o] {
+						shared = "reachable from the codec instance"
+					} else if gl := objGlobals(e, o); len(gl) > 0 {
+						shared = "reachable from package-level variable(s) " + strings.Join(gl, ",")
+					}
+					if shared == "" {
+						continue
+					}
+					c.add("NO-SHARED-RESULT", m, fmt.Sprintf("result #%d -> %s", ri, o.Label), report.Violated, c.P.Pos(ret.Pos()),
+						fmt.Sprintf("the method returns a pointer to %s, a mutable library object %s: every caller gets the same object, so a change made through it by one caller (SetParameter, field store) is seen by all others and by the codec itself", l.String(), shared))
+				}
+			}
+		}
+	}
+	return n
 }
 
 func countControls(c *Ctx, e *Eff) int {
